@@ -272,7 +272,7 @@ impl Ctx {
             .ok()
             .and_then(|s| s.parse().ok())
             .unwrap_or_else(|| match tier {
-                Tier::Quick => 4,
+                Tier::Quick => 8,
                 Tier::Thorough => 16,
             });
         Self {
@@ -439,7 +439,7 @@ impl Ctx {
 
     fn push_failure<C: Check>(&mut self, sig: String, msg: String, case: &C::Case) {
         let case_json = serde_json::to_value(case).unwrap_or(Value::Null);
-        let dir = format!("{VERIF_ROOT}/replays");
+        let dir = std::env::var("VERIF_REPLAY_DIR").unwrap_or_else(|_| format!("{VERIF_ROOT}/replays"));
         let _ = std::fs::create_dir_all(&dir);
         let path = format!("{dir}/{}-{}-{}-{}.json", self.property, C::NAME, self.seed, self.failures.len());
         let doc = json!({
@@ -587,7 +587,9 @@ impl Ctx {
             "wall_s": (wall * 1000.0).round() / 1000.0,
             "violations": violations,
         });
-        let dir = format!("{VERIF_ROOT}/evidence");
+        // VERIF_EVIDENCE_DIR diverts the evidence (used by the mutation helper so that a run on a
+        // deliberately broken tree never overwrites /verif/evidence)
+        let dir = std::env::var("VERIF_EVIDENCE_DIR").unwrap_or_else(|_| format!("{VERIF_ROOT}/evidence"));
         let _ = std::fs::create_dir_all(&dir);
         let path = format!("{dir}/{}.json", self.property);
         if self.replay_mode {
